@@ -164,6 +164,9 @@ EXTRAS = {
     "xd_h": {"type": "date", "ent": "group", "unit": "year"},
     "xs_p": {"type": "str", "ent": "person", "unit": "year"},
     "xf_h": {"type": "float", "ent": "group", "unit": "month"},
+    # float32 values that need 8-9 significant digits (or whose shortest text is not their value)
+    "xg_p": {"type": "float", "ent": "person", "unit": "month", "hard": True},
+    "xh_p": {"type": "float", "ent": "person", "unit": "month", "hard": True},
 }
 
 
@@ -288,7 +291,21 @@ def build_tbs(sysj, ptree=None):
         def formula(population, period, parameters):
             return population.sum(population.members("xi_p", period)) * 0.25 + 0.75
 
-    for cls in (xi_p, xe_p, xe_h, xd_p, xd_h, xs_p, xf_h):
+    class xg_p(Variable):
+        value_type = float
+        default_value = 0.1
+        entity = person
+        definition_period = DateUnit.MONTH
+
+    class xh_p(Variable):
+        value_type = float
+        entity = person
+        definition_period = DateUnit.MONTH
+
+        def formula(population, period, parameters):
+            return population("xg_p", period) * 1.1 / 3 + population("xi_p", period) / 7
+
+    for cls in (xi_p, xe_p, xe_h, xd_p, xd_h, xs_p, xf_h, xg_p, xh_p):
         tbs.add_variable(cls)
     _KEEP.append(tbs)
     return tbs
@@ -328,10 +345,16 @@ def to_raws(variable, arr):
         else:
             if x != x or x in (float("inf"), float("-inf")):
                 raise Inexact(repr(x))
-            f = fractions.Fraction(float(x))
-            if f.denominator > 64 or abs(f) >= rules.EXACT_LIMIT:
+            x32 = numpy.float32(x)
+            f = fractions.Fraction(float(x32))                      # the float32 value, exactly
+            # the shortest decimal text that identifies the float32, read back as a double
+            g = fractions.Fraction(float(numpy.format_float_scientific(x32, unique=True)))
+            if abs(f) >= 2 ** 40:
                 raise Inexact(repr(x))
-            out.append(["z", int(f)] if f.denominator == 1 else ["q", [f.numerator, f.denominator]])
+            if f != g:
+                out.append(["f", [f.numerator, f.denominator], [g.numerator, g.denominator]])
+            else:
+                out.append(["z", int(f)] if f.denominator == 1 else ["q", [f.numerator, f.denominator]])
     return out
 
 
@@ -359,6 +382,8 @@ def engine_values(tbs, situation, cells, default_period=None):
 
 def render_py(vinfo, raw):
     """the JSON value the property asks for: the engine's value in the variable's type"""
+    if raw[0] == "f":
+        return float(fractions.Fraction(*raw[1]))       # the float32 value (compared as float32, see [same])
     tag, x = raw
     t = vinfo["type"]
     if t == "enum":
@@ -380,6 +405,9 @@ def same(a, b):
         return list(sorted(a)) == list(sorted(b)) and all(same(a[k], b[k]) for k in a)
     if isinstance(a, list) and isinstance(b, list):
         return len(a) == len(b) and all(same(x, y) for x, y in zip(a, b))
+    if isinstance(a, float) and isinstance(b, float):
+        # a float is the engine's float32 value when, cast to float32, it is that value bit for bit
+        return numpy.float32(a).tobytes() == numpy.float32(b).tobytes()
     return type(a) is type(b) and a == b
 
 
@@ -407,10 +435,9 @@ def flatten(doc):
 
 def leaf_obs(x):
     if isinstance(x, float):
-        f = fractions.Fraction(x)
-        if f.denominator > 64:
+        if x != x or x in (float("inf"), float("-inf")):
             raise Inexact(repr(x))
-        return f
+        return fractions.Fraction(x)
     if isinstance(x, (dict, list)):
         return "<nested>"
     return x
@@ -471,6 +498,9 @@ def input_value(rng, x):
         return rng.random() < 0.5
     if t == "int":
         return rng.randint(-20, 100)
+    if t == "float" and x.get("hard"):
+        return rng.choice([18518.517578125, 2516582.25, 1234567.875, 0.1, 16777215.0, 33333.332, 0.7, 1e-3,
+                           123456.789, 8388607.5, -4096.0009765625, 3.1415927, 99999.99, 5, 2.5])
     if t == "float":
         if x["rule"] is not None:
             z = rng.randint(-20, 100)
@@ -674,8 +704,15 @@ def gen_api_case(rng):
 # ---------------------------------------------------------------------------------------
 
 def fr(raw):
+    if raw[0] == "f":
+        return fractions.Fraction(*raw[1])
     tag, x = raw
     return fractions.Fraction(*x) if tag == "q" else fractions.Fraction(x)
+
+
+def f32(x):
+    """a number as assert_near sees it: cast to float32"""
+    return fractions.Fraction(float(numpy.float32(float(x))))
 
 
 def num_json(f):
@@ -735,6 +772,14 @@ def pick_expected(rng, vinfo, raw, am, rm, want):
             if want in ("equal", "inside", "at"):
                 return bool(v), "equal"
             return (not bool(v)), ("beyond" if not within(v, 1 - v, am, rm) else "at")
+        if raw[0] == "f" or v.denominator > 16 or abs(v) >= 2 ** 20:
+            # a value that needs all the digits of a float32: its shortest text (equal after the cast to float32),
+            # or a value far beyond every margin (no rounding of the float32 arithmetic can matter)
+            if want == "beyond":
+                c = float(f32(-3 * v - 1000))
+                return c, position(v, f32(c), am, rm)
+            c = float(fractions.Fraction(*raw[2])) if raw[0] == "f" else float(v)
+            return (int(c) if c == int(c) and abs(c) < 2 ** 24 else c), position(v, f32(c), am, rm)
         cs = candidates(v, am, rm)
         good = [c for c in cs if position(v, c, am, rm) == want]
         c = rng.choice(good) if good else rng.choice(cs)
@@ -1212,9 +1257,11 @@ def cdoc(flat):
 
 
 def craw(r):
-    tag, x = r
+    tag, x = r[0], r[1]
     if tag == "z":
         return f"(RZ {cz(x)})"
+    if tag == "f":
+        return f"(RF {cq(fractions.Fraction(*r[1]))} {cq(fractions.Fraction(*r[2]))})"
     if tag == "q":
         return f"(RQ {cq(fractions.Fraction(*x))})"
     if tag == "s":
@@ -1299,8 +1346,37 @@ def cmargin(m):
     return f"(MAll {cq(fractions.Fraction(m))})"
 
 
-def cytest(t):
-    out = clist([f"({cstr(str(k))}, {cytree(v)})" for k, v in t["output"].items()])
+def cast_targets(test, vt):
+    """the output section with the numbers expected of numeric variables cast to float32, as assert_near does
+    before it compares (target_value.astype(float32)); the model then works on exact rationals"""
+    numeric = {n for n, x in vt.items() if x["type"] in ("int", "float", "bool")}
+
+    def leaf(x):
+        if isinstance(x, bool) or not isinstance(x, (int, float)):
+            return x
+        c = float(numpy.float32(x))
+        return x if c == x else c
+
+    def walk(name, value):
+        if isinstance(value, dict) and set(value) != {"$date"}:
+            return {k: walk(name, v) for k, v in value.items()}
+        if name not in numeric:
+            return value
+        return [leaf(v) for v in value] if isinstance(value, list) else leaf(value)
+
+    out = {}
+    for key, value in test["output"].items():
+        if key in vt:
+            out[key] = walk(key, value)
+        elif key in ("person", "household"):
+            out[key] = {n: walk(n, v) for n, v in value.items()}
+        else:
+            out[key] = {iid: {n: walk(n, v) for n, v in inst.items()} for iid, inst in value.items()}
+    return out
+
+
+def cytest(t, vt):
+    out = clist([f"({cstr(str(k))}, {cytree(v)})" for k, v in cast_targets(t, vt).items()])
     return (f"(mk_ytest (Some {cstr(str(t['period']))}) {out} {cmargin(t.get('absolute_error_margin'))} "
             f"{cmargin(t.get('relative_error_margin'))})")
 
@@ -1319,7 +1395,7 @@ def coq_case(case):
     tests = []
     for t, vals in zip(case["tests"], obs["values"]):
         ids = cids({"persons": t["pids"], "households": t["hids"]})
-        tests.append(f"({ids}, {ctable([(tuple(c), v) for c, v in vals])}, {cytest(t)})")
+        tests.append(f"({ids}, {ctable([(tuple(c), v) for c, v in vals])}, {cytest(t, vt)})")
     return f"(KYaml {cvtable(vt)} [\"person\"; \"household\"] {clist(tests)})"
 
 
@@ -1441,8 +1517,12 @@ def oracle_api(case, obs):
                         return f"trace: no entry {key} in the trace"
                     got = val[order.index(e[1])]
                     if isinstance(want_leaf, float):
-                        want_leaf = fractions.Fraction(want_leaf)
-                    if not same(got, want_leaf):
+                        # the trace gives the float32 value itself (tolist), /calculate its shortest text: equal as float32
+                        ok = isinstance(got, fractions.Fraction) and \
+                            numpy.float32(float(got)).tobytes() == numpy.float32(want_leaf).tobytes()
+                    else:
+                        ok = same(got, want_leaf)
+                    if not ok:
                         return f"trace: {key}[{e[1]}] is {got!r}, /calculate and the engine give {want_leaf!r}"
         elif kind == "scale":
             if o["status"] != 200 or not o["has"]:
@@ -1533,7 +1613,7 @@ def yaml_expected_pass(test, vals, vt):
             if x["type"] in ("int", "float", "bool"):
                 if isinstance(t, str) or t is None:
                     return False
-                if not within(fr(raw), fractions.Fraction(t), am, rm):
+                if not within(fr(raw), f32(t), am, rm):
                     return False
             elif x["type"] == "enum":
                 if ENUM_NAMES[raw[1]] != t:
